@@ -260,6 +260,73 @@ Qed.
 Print Assumptions C02_chunk_is_slice.
 
 (* ---------------------------------------------------------------------- *)
+(* One Reader object through any sequence of open() / compress_file /
+   decompress_file (either keep_original) / decompress_to_scratch, started on
+   x.bin or x.cbin of a recording with n >= 1 samples, nc >= 1 channels, any
+   compressed size, header and meta file announcing n samples: after every call
+   the object exposes the recording's shape (ns = n), every open() succeeds and
+   installs the raw reader of the file the object currently points at.       *)
+Theorem C02_object_shape_invariant : forall w f ops,
+  1 <= w_n w -> 1 <= w_nc w -> w_nch w = w_n w ->
+  Forall (fun x => o_ns (s_obj (fst x)) = w_n w) (r_run w (r_start w f (w_n w)) ops) /\
+  (forall s, o_ns (s_obj s) = w_n w ->
+     snd (r_step w s ROpen) = false /\
+     o_ns (s_obj (fst (r_step w s ROpen))) = w_n w /\
+     o_raw (s_obj (fst (r_step w s ROpen))) =
+       (match o_file (s_obj s) with DBin => RawMemmap | DCbin => RawMtscomp end)).
+Proof.
+  intros w f ops Hn Hc Hh.
+  assert (Hw : wgood w) by (repeat split; assumption).
+  split.
+  - apply (r_run_inv w ops _ Hw). reflexivity.
+  - intros s Hs. destruct (r_open_step w s Hw Hs) as [H1 H2].
+    split; [exact H1|split; [exact (r_step_inv w s ROpen Hw Hs)|exact H2]].
+Qed.
+Print Assumptions C02_object_shape_invariant.
+
+(* What goes stale (exact truth about the current code).  nbytes is never
+   refreshed by any call: it stays the size of the file the object was
+   constructed on.  open() on x.bin logs the size-mismatch warning exactly when
+   that cached value differs from 2*n*nc — i.e. spuriously for an object that
+   was constructed on x.cbin and decompressed in place — and recomputes the
+   duration from a fresh stat(), which is why the shape stays right.         *)
+Theorem C02_object_nbytes_never_refreshed : forall w s ops,
+  Forall (fun x => o_nbytes (s_obj (fst x)) = o_nbytes (s_obj s)) (r_run w s ops).
+Proof. intros w s ops. exact (r_run_nbytes w ops s). Qed.
+Print Assumptions C02_object_nbytes_never_refreshed.
+
+Theorem C02_object_spurious_warning_iff : forall w o,
+  1 <= w_n w -> 1 <= w_nc w -> w_nch w = w_n w -> o_ns o = w_n w ->
+  exists o', r_open w o = Some o' /\ o_ns o' = w_n w /\
+    (o_warn o' = true <-> (o_file o = DBin /\ o_nbytes o <> 2 * w_n w * w_nc w)).
+Proof.
+  intros w o Hn Hc Hh Hs.
+  destruct (r_open_ok w o (conj Hn (conj Hc Hh)) Hs) as [o' [E [H1 [_ [_ [_ H2]]]]]].
+  exists o'. auto.
+Qed.
+Print Assumptions C02_object_spurious_warning_iff.
+
+Example object_stale_nbytes :
+  let tr := r_run w_ex (r_start w_ex DCbin 11) [ROpen; RDecompress false; ROpen] in
+  let o := s_obj (fst (last tr (r_start w_ex DCbin 11, false))) in
+  o_file o = DBin /\ o_nbytes o = 93 /\ fsize w_ex DBin = 66 /\ o_warn o = true /\ o_ns o = 11.
+Proof. exact stale_nbytes_witness. Qed.
+
+(* F-C02-d: "indistinguishable through the reader" fails on the SAME object
+   right after decompress_file(keep_original=False): it points at x.bin, reports
+   is_open, but its raw reader is the closed mtscomp reader (reads raise or come
+   from the chunk cache) until open() is called again. *)
+Theorem C02_object_raw_stale_refuted :
+  exists w f ops, 1 <= w_n w /\ 1 <= w_nc w /\ w_nch w = w_n w /\
+    let o := s_obj (fst (last (r_run w (r_start w f (w_n w)) ops) (r_start w f (w_n w), false))) in
+    o_file o = DBin /\ o_raw o = RawClosed.
+Proof.
+  exists w_ex, DCbin, [ROpen; RDecompress false].
+  cbn zeta. repeat split; try (vm_compute; congruence); apply stale_raw_witness.
+Qed.
+Print Assumptions C02_object_raw_stale_refuted.
+
+(* ---------------------------------------------------------------------- *)
 (* The exact truth about what is left of the former findings F-C02-b/c
    (repaired in 746882f), and about decompress_file.                        *)
 
